@@ -53,7 +53,8 @@ func (o c15hOp) String() string { return c15hNames[o] }
 const c15hMaxConns = 2
 
 type c15hSys struct {
-	s *trafficStatsServerImpl
+	s     *trafficStatsServerImpl
+	polls int
 	// reference, from the property statement
 	kick    map[string]bool      // kicked, next report not yet seen
 	online  map[string]int       // connected authenticated connections
@@ -106,9 +107,13 @@ func (y *c15hSys) postKick(ids ...string) error {
 // traffic polls the counters and checks conservation: what clearing snapshots handed out so far
 // plus the current snapshot is exactly what was accepted.
 func (y *c15hSys) traffic(clear bool) error {
-	p := "/traffic"
+	// the spelling of the flag rotates with the poll number: clear=1 / clear=true clear, an absent
+	// flag / clear=0 / clear=false do not (added after the independently seeded change C15-8: any
+	// request that carried the parameter cleared, whatever its value)
+	y.polls++
+	p := "/traffic" + []string{"", "?clear=0", "?clear=false"}[y.polls%3]
 	if clear {
-		p += "?clear=1"
+		p = "/traffic" + []string{"?clear=1", "?clear=true"}[y.polls%2]
 	}
 	code, body := y.do(http.MethodGet, p, "")
 	var m map[string]trafficStatsEntry
